@@ -1137,6 +1137,13 @@ func (e *Engine) VerifyFunction(fn *ssa.Function) *FuncResult {
 		reqs = append(reqs, t)
 		fr.assume(st, t)
 	}
+	if pk := e.pkgOf(fn); pk != nil {
+		for _, ax := range e.contracts.axioms[pk.PkgPath] {
+			actx := &EvalCtx{fr: fr, f: f, st: st, old: f.entry, pkg: pk, binds: map[string]TVal{}, pol: 1}
+			fr.assume(st, fr.evalClause(actx, ax))
+			fr.assumed["axiom (defining equation of a spec function): "+ax.Text] = true
+		}
+	}
 	if e.checkGuards && !mentionsHeld(f.contract) {
 		// lock discipline default: a function whose contract says nothing about locks is entered with no lock held
 		// by the calling goroutine (asserted at every call under contract, see applyContract)
